@@ -17,7 +17,10 @@ from ..sandbox import MODEL_ROOT as R, run_world
 
 LEVEL_NOTE = ("theorems: list, restore, rm and empty factor through the same two parsers (first Path line, first "
               "DeletionDate line, unknown lines ignored) and are handed the same base directory for every kind of trash "
-              "directory ($topdir for volume dirs, '/' for the home trash, the same lexical volume for --trash-dir); C20Cmd.commands_agree_on_entry: for one entry of a scanned directory the line of trash-list, the line and destination of trash-restore, the subject of trash-rm and the date of trash-empty DAYS are functions of the same text and base")
+              "directory ($topdir for volume dirs, '/' for the home trash, the same lexical volume for --trash-dir); C20Cmd.commands_agree_on_entry: for one entry of a scanned directory the line of trash-list, the line and destination of trash-restore, the subject of trash-rm and the date of trash-empty DAYS are functions of the same text and base. C20Cmd (whole commands, several trash directories): the stdout of trash-list is the list of meanings (path, date) of the info "
+              "files; what trash-restore / offers is a permutation of the same pairs and the chosen entry goes to that very path; trash-rm "
+              "removes exactly the entries whose LISTED path matches; trash-empty DAYS removes an entry iff the date LISTED for it is older "
+              "(four_way_agreement); an info without Path is never listed yet purged by its date (kernel-checked, real)")
 RULE = ("exhaustive product: 49 .trashinfo content templates (4 of them with a look-alike twin entry: NFC/NFD, ligature, letter case) (absolute / relative Path, percent-escapes of every byte class, "
         "lower-case hex, malformed escapes, raw UTF-8 and non-UTF-8 bytes, duplicate keys, extra keys and sections, missing "
         "header, CRLF, lone CR, trailing blanks, 14 date spellings) x 8 trash-dir kinds (home on / , home on its own volume, "
